@@ -274,3 +274,21 @@ impl Elem for Cm {
     fn show(&self) -> String { format!("{}{}", self.v, "'".repeat(self.generation as usize)) }
     fn dflt() -> Self { Cm { v: 0, generation: 0 } }
 }
+
+macro_rules! zst_elem {
+    ($name:ident, $align:expr, $kind:expr) => {
+        #[repr(align($align))]
+        #[derive(Default, Clone, Debug)]
+        pub struct $name;
+        impl Elem for $name {
+            const ZST: bool = true;
+            const KIND: &'static str = $kind;
+            fn make(_: String) -> Self { $name }
+            fn show(&self) -> String { "u".to_string() }
+            fn dflt() -> Self { $name }
+        }
+    };
+}
+zst_elem!(Z2, 2, "z2");
+zst_elem!(Z4, 4, "z4");
+zst_elem!(Z8, 8, "z8");
